@@ -193,6 +193,7 @@ func checkStructure(res *fw.Result, spec *planSpec, o optSet, tm *treeModel, wit
 		match["sched"] = fmt.Sprint(o.Sched)
 		match["multi"] = fmt.Sprint(o.Multi)
 		match["dedupe"] = fmt.Sprint(o.DedupeOn)
+		match["fetch_info"] = spec.Info.String()
 		d := witness()
 		d["problem"] = msg
 		res.Violate(kind, msg, match, d)
